@@ -51,7 +51,27 @@ def match_known(known, prop, ob):
     return None
 
 
+_REPLAY_CACHE = {}
+MAX_REPLAYS = 8
+
+
 def run_replay(prop, ob, replay_spec):
+    key = json.dumps({'f': (replay_spec or {}).get('func'), 'i': {k: v for k, v in ((replay_spec or {}).get('inputs') or {}).items()
+                                                                    if k not in ('obligation', 'model', 'info', 'target')}}, sort_keys=True, default=str)
+    if replay_spec is not None and key in _REPLAY_CACHE:
+        confirmed, out = _REPLAY_CACHE[key]
+        c2, path, _ = _run_replay(prop, ob, replay_spec, reuse=(confirmed, out))
+        return confirmed, path, out
+    if replay_spec is not None and len(_REPLAY_CACHE) >= MAX_REPLAYS:
+        c2, path, _ = _run_replay(prop, ob, replay_spec, reuse=(None, 'replay budget of this run used up (%d replays); run ./check %s --replay <this file>' % (MAX_REPLAYS, prop)))
+        return None, path, ''
+    confirmed, path, out = _run_replay(prop, ob, replay_spec)
+    if replay_spec is not None:
+        _REPLAY_CACHE[key] = (confirmed, out)
+    return confirmed, path, out
+
+
+def _run_replay(prop, ob, replay_spec, reuse=None):
     """replay_spec: {'func': name in replay/<prop>.py, 'inputs': json}.  Runs the real code
     under /venv.  Returns (confirmed: bool|None, output text)."""
     os.makedirs(REPLAY_DIR, exist_ok=True)
@@ -66,6 +86,10 @@ def run_replay(prop, ob, replay_spec):
     json.dump(doc, open(path, 'w'), indent=1, default=str)
     if replay_spec is None:
         return None, path, 'no replay builder for this obligation'
+    if reuse is not None:
+        doc['replay_output'], doc['replay_confirmed'] = reuse[1], reuse[0]
+        json.dump(doc, open(path, 'w'), indent=1, default=str)
+        return reuse[0], path, reuse[1]
     try:
         p = subprocess.run([VENV_PY, os.path.join(VERIF, 'replay', 'run.py'), path],
                            capture_output=True, text=True, timeout=600,
